@@ -427,8 +427,16 @@ func (m *Manager) FlushMemTables() error {
 	// Track operation
 	m.stats.TrackOperation(stats.OpFlush)
 
+	// Take the tables to flush out of the shared list under the storage lock:
+	// writers append to it under m.mu, and a table scheduled from now on stays
+	// in the list for the next flush
+	m.mu.Lock()
+	toFlush := m.immutableMTs
+	m.immutableMTs = nil
+	m.mu.Unlock()
+
 	// If no immutable MemTables, flush the active one if needed
-	if len(m.immutableMTs) == 0 {
+	if len(toFlush) == 0 {
 		tables := m.memTablePool.GetMemTables()
 		if len(tables) > 0 && tables[0].ApproximateSize() > 0 {
 			// In testing, we might want to force flush the active table too
@@ -451,25 +459,32 @@ func (m *Manager) FlushMemTables() error {
 
 	// Create a new WAL file for future writes
 	if err := m.rotateWAL(); err != nil {
+		m.requeueUnflushed(toFlush)
 		m.stats.TrackError("wal_rotate_error")
 		return fmt.Errorf("failed to rotate WAL: %w", err)
 	}
 
 	// Flush each immutable MemTable
-	for i, imMem := range m.immutableMTs {
+	for i, imMem := range toFlush {
 		if err := m.flushMemTable(imMem); err != nil {
+			m.requeueUnflushed(toFlush[i:])
 			m.stats.TrackError("memtable_flush_error")
 			return fmt.Errorf("failed to flush MemTable %d: %w", i, err)
 		}
 	}
 
-	// Clear the immutable list - the MemTablePool manages reuse
-	m.immutableMTs = m.immutableMTs[:0]
-
 	// Track flush count
 	m.stats.TrackFlush()
 
 	return nil
+}
+
+// requeueUnflushed puts tables that could not be flushed back in front of the
+// list of immutable tables, ahead of those scheduled in the meantime
+func (m *Manager) requeueUnflushed(rest []*memtable.MemTable) {
+	m.mu.Lock()
+	m.immutableMTs = append(rest[:len(rest):len(rest)], m.immutableMTs...)
+	m.mu.Unlock()
 }
 
 // GetMemTableSize returns the current size of all memtables
